@@ -36,7 +36,7 @@ def log(*a):
 
 class Q:
     """one solver query (plus its witness twin)"""
-    def __init__(self, name, harness, desc, defs=None, units=(), ll=(), cfg=None, unwind=64,
+    def __init__(self, name, harness, desc, defs=None, units=(), ll=(), cfg=None, unwind=1300,
                  unwindset=None, flags=(), timeout=600, mem_gb=12, witness=True, expect='pass',
                  stubs=False, entry='harness', kf=None, group=None, functions=(), replay=True,
                  malloc_fail=False, sanitize=False, objbits=None, fsarray=None, std=SHIPPED_STD):
@@ -289,17 +289,29 @@ class Runner:
             if not re.fullmatch(r'[\w\[\].]+', c): continue
             lines.append('    %s = 0x%xULL;' % (c, int(b, 2)))
         lines.append('}')
+        # fallback used only when the solver's own values do not reproduce (typically because the failure depends
+        # on uninitialised memory, whose real content is decided by earlier calls): same harness, random inputs
+        lines += ['static void vh_replay_random(unsigned seed)', '{', '    srand(seed);']
+        for lhs, b in vals.items():
+            c = re.sub(r'\[(\d+)[lu]*\]', r'[\1]', lhs)
+            if not re.fullmatch(r'[\w\[\].]+', c): continue
+            lines.append('    %s = (((unsigned long long)rand() << 32) ^ ((unsigned long long)rand() << 11) ^ (unsigned long long)rand());' % c)
+        lines.append('}')
         with open(os.path.join(outdir, 'replay_values.inc'), 'w') as f: f.write('\n'.join(lines) + '\n')
         d = dict(cfg_defs(q.cfg)); d.update(q.defs); d['REPLAY'] = 1
         san = ['-fsanitize=address,undefined', '-fno-sanitize-recover=undefined', '-g'] if q.sanitize else []
         inc = ' '.join(self.inc(q))
         script = ['#!/bin/sh', '# replay of a counterexample for query %s, property %s' % (q.name, prop),
                   '# rebuilds from %s and runs; prints REPLAY-FAIL if the violation reproduces' % REPO,
-                  'set -e', 'D=$(cd "$(dirname "$0")" && pwd)', 'T=$(mktemp -d)', 'trap \'rm -rf "$T"\' EXIT']
+                  'D=$(cd "$(dirname "$0")" && pwd)', 'T=$(mktemp -d)', 'trap \'rm -rf "$T"\' EXIT']
+        script.append('# the real code is built at the shipped -O3 and at -O0 (uninitialised-memory and UB dependent')
+        script.append('# behaviour differs between levels); the violation is reproduced if either build shows it')
+        script.append('worst=0')
+        script.append('for OPT in -O3 -O0; do')
         objs = []
         for k, u in enumerate(q.units):
             dd = dict(cfg_defs(q.cfg)); dd.update(u.defs)
-            script.append('gcc -std=%s -O3 -w %s %s %s -c %s -o $T/u%d.o' % (q.std, ' '.join(san), inc, ' '.join(dflags(dd)), self.src_path(u.path), k))
+            script.append('gcc -std=%s $OPT -w %s %s %s -c %s -o $T/u%d.o || exit 99' % (q.std, ' '.join(san), inc, ' '.join(dflags(dd)), self.src_path(u.path), k))
             objs.append('$T/u%d.o' % k)
         for k, l in enumerate(q.ll):
             dd = dict(cfg_defs(q.cfg)); dd.update(l.defs); dd['VH_SHIM'] = 1
@@ -309,19 +321,29 @@ class Runner:
             try:
                 _, csrc, info = self.build_ll(l, q)
                 from . import ll2c
-                with open(shim, 'w') as f: f.write(ll2c.shim_source(self.src_path(l.path), info, l.prefix))
+                with open(shim, 'w') as f: f.write(ll2c.shim_source(self.src_path(l.path), info, l.prefix, l.export))
             except BuildError:
                 return 'error', 'cannot build shim'
             cc = 'gcc -std=%s' % q.std if l.lang == 'c' else 'g++ -std=c++11 -fno-exceptions -fno-rtti -fpermissive'
-            script.append('%s -O3 -w %s %s %s %s -c $D/shim%d.c -o $T/l%d.o' % (cc, ' '.join(san), ' '.join(l.flags), inc, ' '.join(dflags(dd)), k, k))
+            script.append('%s $OPT -w %s %s %s %s -c $D/shim%d.c -o $T/l%d.o || exit 99' % (cc, ' '.join(san), ' '.join(l.flags), inc, ' '.join(dflags(dd)), k, k))
             objs.append('$T/l%d.o' % k)
         hsrc = os.path.join(VERIF, 'harness', q.harness)
-        script.append('gcc -std=%s -O3 -w %s %s -I$D %s -c %s -o $T/h.o' % (q.std, ' '.join(san), inc, ' '.join(dflags(d)), hsrc))
+        script.append('gcc -std=%s $OPT -w %s %s -I$D %s -c %s -o $T/h.o || exit 99' % (q.std, ' '.join(san), inc, ' '.join(dflags(d)), hsrc))
         link = 'g++' if any(l.lang != 'c' for l in q.ll) else 'gcc'
-        script.append('%s %s $T/h.o %s -o $T/replay' % (link, ' '.join(san), ' '.join(objs)))
-        script.append('set +e'); script.append('$T/replay'); script.append('rc=$?')
-        script.append('if [ $rc -eq 0 ]; then echo "replay: property held on the real build"; fi')
-        script.append('exit $rc')
+        # the rest of the real library, as an archive: members are pulled in only for symbols still undefined
+        script.append('rm -f $T/libskinny.a; for f in %s/src/*.c; do b=$(basename $f .c); fl=-msse2; case $b in *vec256) fl=-mavx2;; esac; '
+                      'gcc -std=%s $OPT -w %s $fl %s %s -c $f -o $T/lib_$b.o & done; wait; ar rc $T/libskinny.a $T/lib_*.o'
+                      % (REPO, q.std, ' '.join(san), inc, ' '.join(dflags(cfg_defs(q.cfg)))))
+        script.append('%s %s $T/h.o %s $T/libskinny.a -o $T/replay || exit 99' % (link, ' '.join(san), ' '.join(objs)))
+        script.append('echo "== real code built with $OPT, inputs from the solver"; MALLOC_PERTURB_=165 $T/replay; rc=$?')
+        script.append('if [ $rc -ne 0 ] && [ $rc -ne 3 ]; then worst=$rc; break; fi')
+        script.append('for S in 1 2 3 4 5 6 7 8 9 10 11 12 13 14 15 16 17 18 19 20 21 22 23 24; do')
+        script.append('  MALLOC_PERTURB_=165 $T/replay $S > $T/out.txt 2>&1; rc=$?')
+        script.append('  if [ $rc -ne 0 ] && [ $rc -ne 3 ]; then echo "== real code built with $OPT, same harness, random inputs (seed $S)"; cat $T/out.txt; worst=$rc; break 2; fi')
+        script.append('done')
+        script.append('done')
+        script.append('if [ $worst -eq 0 ]; then echo "replay: property held on the real build"; fi')
+        script.append('exit $worst')
         sp = os.path.join(outdir, 'run.sh')
         with open(sp, 'w') as f: f.write('\n'.join(script) + '\n')
         os.chmod(sp, 0o755)
